@@ -111,7 +111,7 @@ func main() {
 			all = append(all, sc.script...)
 			res.Evaluations++
 			h := sha256.Sum256([]byte(strings.Join(sc.script, "\n")))
-			if len(sc.script) > 3 && !distinct[h] {
+			if len(sc.script) >= 1 && !distinct[h] {
 				distinct[h] = true
 			}
 			for k, v := range sc.tags {
@@ -131,7 +131,7 @@ func main() {
 				}
 				res.Violations = append(res.Violations, v)
 			}
-			if len(res.Samples) < 3 && len(sc.script) > 3 {
+			if len(res.Samples) < 3 && len(sc.script) >= 1 {
 				var show []string
 				for j, l := range sc.script {
 					if j >= 12 {
@@ -207,6 +207,10 @@ func init() {
 	streams["rlimit"] = func(seed int64, idx int) *scenario {
 		return runReaderScenario(seed*1000003+int64(idx), rOpts{mode: "limit", handlers: idx%4 == 0, smallOnly: true})
 	}
+	streams["srv"] = func(seed int64, idx int) *scenario { return runServerScenario(seed*1000003+int64(idx), false) }
+	streams["origin"] = func(seed int64, idx int) *scenario { return runServerScenario(seed*1000003+int64(idx), true) }
+	streams["cli"] = func(seed int64, idx int) *scenario { return runClientScenario(seed*1000003 + int64(idx)) }
+	streams["unit"] = func(seed int64, idx int) *scenario { return runUnitScenario(seed*1000003 + int64(idx)) }
 	streams["wfault"] = func(seed int64, idx int) *scenario {
 		kinds := []string{"error", "timeout", "short"}
 		return runWriterScenario(seed*1000003+int64(idx/36), wOpts{faults: true, closes: idx%5 == 0, invalid: true, prepared: true, compress: true, multi: idx%7 == 0}, (idx%36)/3, kinds[idx%3])
